@@ -4,7 +4,7 @@
 From Coq Require Import List NArith ZArith Bool.
 From V.C14 Require Import WireModel WireSpec WireLemmas WireProofs.
 From V.C14 Require Import BytesModel BytesSpec BytesProofs.
-From V.C14 Require Import SerModel SerSpec SerProofs.
+From V.C14 Require Import SerModel SerSpec SerProofs SerGrammar.
 From V.C14 Require Import JsonModel JsonSpec JsonProofs.
 Import ListNotations.
 Open Scope N_scope.
@@ -50,6 +50,15 @@ Print Assumptions consumes_all.
 Theorem depth_honoured : forall o d fs, parse_fields o 0 d = Ok fs -> nest fs + 1 <= o_max o.
 Proof. exact depth_honoured_l. Qed.
 Print Assumptions depth_honoured.
+
+(* ... and the limit is exact: the canonical encoding of a tree that would be encodable under a
+   larger MaxDepth but has more than MaxDepth levels is refused with ErrMaxDepth, whatever else
+   it contains *)
+Theorem too_deep_rejected : forall o o' fs,
+  same_but_max o o' -> wf_fields o' fs = true -> 0 < o_max o -> o_max o <= nest fs ->
+  parse_fields o 0 (encode_fields fs) = Err EMaxDepth.
+Proof. exact too_deep_rejected_l. Qed.
+Print Assumptions too_deep_rejected.
 
 (* ====================================================================== (2) base64 / hex / URL *)
 (* "the matching decoder inverts it exactly", over all byte strings *)
@@ -125,13 +134,25 @@ Theorem scanner_moves_forward : forall f s v r, parse_value f s = POk (v, r) ->
 Proof. exact scanner_moves_forward_l. Qed.
 Print Assumptions scanner_moves_forward.
 
-(* FULL STATEMENTS NOT PROVED / REFUTED for this codec:
-   - "every encoder emits output ...": refuted for floats (serialize returns false), see
-     Examples.serialize_float_refuted; known finding ser:enc:unsupported:float.
-   - "accept exactly the well-formed inputs": refuted by the white-space trimming of the wrapper,
-     see Examples.unserialize_whitespace_refuted; known finding unser:accept:surrounding-whitespace.
-     An equivalence of parse_strict with an inductive grammar (as proved for the wire codec) is
-     not proved; what is proved about acceptance is the two theorems above. *)
+(* "accept exactly the well-formed inputs": the strict parser accepts a byte string with a value iff
+   the string is a text of the grammar ser_text (SerSpec.v) denoting that value — soundness and
+   completeness; and unserialize as a whole accepts exactly those texts after trimming white space *)
+Theorem unserialize_strict_accepts_iff : forall s v, parse_strict s = POk v <-> ser_text s v.
+Proof. exact strict_accepts_iff_l. Qed.
+Print Assumptions unserialize_strict_accepts_iff.
+
+Theorem unserialize_accepts_iff : forall s v, unserialize s = POk v <-> ser_text (trim_space s) v.
+Proof. exact unserialize_accepts_iff_l. Qed.
+Print Assumptions unserialize_accepts_iff.
+
+(* REFUTED for this codec (witnesses in Examples.v, known findings demonstrated on the implementation):
+   - "every encoder emits output ...": serialize returns false for floats
+     (serialize_float_refuted; ser:enc:unsupported:float);
+   - "accept exactly the well-formed inputs": the wrapper trims surrounding white space first
+     (unserialize_whitespace_refuted; unser:accept:surrounding-whitespace) — unserialize_accepts_iff
+     states exactly that; the grammar itself admits array keys of any scalar kind (PHP: int or
+     string only), see Examples.ex_lenient_key.
+   Not modelled: objects (O:), the legacy __origami_ wrappers (PUnmodelled outcome). *)
 
 (* ====================================================================== (4) JSON value <-> tree *)
 (* The reference reading (JsonSpec: what the format's own rules give) inverts the reference
